@@ -357,6 +357,90 @@ Theorem C09_set_truth_changes_nothing_else : forall x i t,
     truth_get (x_truth (fst (xstep x (XSetTruth i t)))) j = truth_get (x_truth x) j.
 Proof. exact set_truth_changes_nothing. Qed.
 
+(* ---- class hierarchies: a redefined tunable shadows ------------------- *)
+
+(* Vocabulary: a class is given by its MRO, [mro = [vars(k) for k in
+   cls.__mro__]] (the class itself first, then its bases in linearised order);
+   a class body binds a name to a tunable ([MTun d], name [d_attr d]) or to
+   something else ([MPlain name]).  [class_getattr mro n] is getattr(cls, n):
+   the first class of the MRO whose body binds n.  [class_members mro] is what
+   the loop head of setup_tunables (`for n in dir(cls): prop = getattr(cls, n);
+   if not isinstance(prop, tunable): continue`) yields; [setup_class i mro p c]
+   is setup_tunables on an instance of that class. *)
+
+(* the loop sees exactly the tunable that attribute lookup on the class finds
+   under each name, and one tunable per attribute name *)
+Theorem C09_class_members : forall mro,
+  (forall d, In d (class_members mro) <-> class_getattr mro (d_attr d) = Some (MTun d)) /\
+  NoDup (map d_attr (class_members mro)).
+Proof. exact (fun mro => conj (class_members_char mro) (class_members_nodup mro)). Qed.
+
+(* the classes before C in the MRO do not bind the name, C binds it to the
+   tunable d: then the class has d under that name and no other tunable,
+   whatever the base classes after C declare under the same name *)
+Theorem C09_redefinition_shadows : forall pre C post d,
+  (forall b, In b pre -> body_get b (d_attr d) = None) ->
+  body_get C (d_attr d) = Some (MTun d) ->
+  class_getattr (pre ++ C :: post) (d_attr d) = Some (MTun d) /\
+  In d (class_members (pre ++ C :: post)) /\
+  forall d', In d' (class_members (pre ++ C :: post)) -> d_attr d' = d_attr d -> d' = d.
+Proof. exact redefinition_shadows. Qed.
+
+(* a name the class resolves to a non-tunable is not a tunable of the class,
+   even when a base class declares a tunable of that name *)
+Theorem C09_plain_member_shadows : forall mro n,
+  class_getattr mro n = Some (MPlain n) ->
+  forall d, In d (class_members mro) -> d_attr d <> n.
+Proof. exact plain_member_shadows. Qed.
+
+(* setup of an instance of such a class (names "/"-free): the definition d
+   that attribute lookup finds under the name A is bound at the documented key
+   with its topic type, and ITS default and ITS writeDefault flag decide what
+   the topic holds -- the default when writeDefault is true or the topic had
+   no value, else the previous (type, value) *)
+Theorem C09_setup_hierarchy : forall w i mro p c d,
+  (forall b m, In b mro -> In m b -> no_slash (member_name m) = true) ->
+  class_getattr mro (d_attr d) = Some (MTun d) -> public d = true ->
+  snd (step w (setup_class i mro p c)) = EvSetup true ->
+  exists b ty, inst_get (w_inst (fst (step w (setup_class i mro p c)))) i = Some b /\
+    decl_topic (d_default d) (d_hint d) = Ok ty /\
+    bind_get b (d_attr d) = Some (key_of p c (d_subtable d) (d_attr d), ty, canon (d_default d)) /\
+    nt_get (w_nt (fst (step w (setup_class i mro p c)))) (key_of p c (d_subtable d) (d_attr d)) =
+    if d_wd d then Some (ty, canon (d_default d))
+    else match nt_get (w_nt w) (key_of p c (d_subtable d) (d_attr d)) with
+         | Some tv => Some tv
+         | None => Some (ty, canon (d_default d))
+         end.
+Proof. exact setup_hierarchy. Qed.
+
+(* ... and the attribute reads exactly that right after the setup *)
+Theorem C09_setup_hierarchy_read : forall w i mro p c d,
+  (forall b m, In b mro -> In m b -> no_slash (member_name m) = true) ->
+  class_getattr mro (d_attr d) = Some (MTun d) -> public d = true ->
+  snd (step w (setup_class i mro p c)) = EvSetup true ->
+  py_read (fst (step w (setup_class i mro p c))) i (d_attr d) =
+  EvVal (if d_wd d then canon (d_default d)
+         else match nt_get (w_nt w) (key_of p c (d_subtable d) (d_attr d)) with
+              | Some (_, v) => v
+              | None => canon (d_default d)
+              end).
+Proof. exact setup_hierarchy_read. Qed.
+
+(* what it must not touch: every topic that is not the key of a tunable the
+   class resolves a public name to (e.g. the key a shadowed definition with
+   another subtable, or a tunable shadowed by a plain attribute, would have) *)
+Theorem C09_setup_hierarchy_untouched : forall w i mro p c k,
+  (forall d, class_getattr mro (d_attr d) = Some (MTun d) -> public d = true ->
+             key_of p c (d_subtable d) (d_attr d) <> k) ->
+  nt_get (w_nt (fst (step w (setup_class i mro p c)))) k = nt_get (w_nt w) k.
+Proof. exact setup_hierarchy_untouched. Qed.
+
+(* when every class statement of the hierarchy executes (shadowed tunables
+   included), the setup succeeds *)
+Theorem C09_hierarchy_setup_succeeds : forall w i mro p c,
+  hier_defined mro = true -> snd (step w (setup_class i mro p c)) = EvSetup true.
+Proof. exact hierarchy_setup_succeeds. Qed.
+
 (* ---- non-vacuity ----------------------------------------------------- *)
 
 Definition ex_cls : list decl :=
@@ -481,6 +565,52 @@ Example C09_nv_falsy :
     = Some (VScalar (SFloat 16)).
 Proof. vm_compute. intuition. Qed.
 
+(* a hierarchy with redefinitions: Shooter <- FastShooter(Shooter, Mixin) *)
+Definition ex_shooter : classbody :=
+  [ MTun (mkdecl "speed" (VScalar (SFloat 64)) None None true);
+    MTun (mkdecl "ratio" (VScalar (SFloat 32)) None None true);
+    MTun (mkdecl "limit" (VScalar (SInt 5)) None None true);
+    MTun (mkdecl "shots" (VScalar (SInt 3)) None (Some "stats") true);
+    MTun (mkdecl "mode" (VScalar (SStr "base")) None None true) ].
+Definition ex_mixin : classbody :=
+  [ MTun (mkdecl "boost" (VScalar (SBool false)) None None true); MPlain "helper" ].
+Definition ex_fast : classbody :=
+  [ MTun (mkdecl "speed" (VScalar (SFloat 576)) None None true);
+    MTun (mkdecl "limit" (VScalar (SInt 7)) None None false);
+    MTun (mkdecl "shots" (VScalar (SInt 40)) None (Some "other") true);
+    MPlain "mode";
+    MTun (mkdecl "boost" (VScalar (SBool true)) None None true) ].
+Definition ex_mro : list classbody := [ex_fast; ex_shooter; ex_mixin].
+Example C09_nv_hierarchy :
+  dir_names ex_mro = ["boost"; "helper"; "limit"; "mode"; "ratio"; "shots"; "speed"] /\
+  map d_attr (class_members ex_mro) = ["boost"; "limit"; "ratio"; "shots"; "speed"] /\
+  hier_defined ex_mro = true /\
+  (forall b m, In b ex_mro -> In m b -> no_slash (member_name m) = true) /\
+  class_getattr ex_mro "limit" = Some (MTun (mkdecl "limit" (VScalar (SInt 7)) None None false)) /\
+  class_getattr ex_mro "mode" = Some (MPlain "mode") /\
+  snd (run w0 [ NtWrite "/components/f/limit" NInteger (VScalar (SInt 2));
+                NtWrite "/components/f/speed" NDouble (VScalar (SFloat (-256)));
+                setup_class 0 ex_mro (Some "components") "f";
+                setup_class 1 [ex_shooter] (Some "components") "b";
+                PyRead 0 "speed"; PyRead 0 "limit"; PyRead 0 "ratio"; PyRead 0 "boost";
+                NtRead "/components/f/other/shots"; NtRead "/components/f/stats/shots";
+                NtRead "/components/f/mode"; PyRead 1 "speed"; PyRead 1 "limit";
+                NtRead "/components/b/mode" ]) =
+  [ EvWrote; EvWrote; EvSetup true; EvSetup true;
+    EvVal (VScalar (SFloat 576)); EvVal (VScalar (SInt 2)); EvVal (VScalar (SFloat 32));
+    EvVal (VScalar (SBool true));
+    EvNt (Some (NInteger, VScalar (SInt 40))); EvNt None; EvNt None;
+    EvVal (VScalar (SFloat 64)); EvVal (VScalar (SInt 5));
+    EvNt (Some (NString, VScalar (SStr "base"))) ].
+Proof.
+  split; [vm_compute; reflexivity|]. split; [vm_compute; reflexivity|].
+  split; [vm_compute; reflexivity|].
+  split; [intros b m [<-|[<-|[<-|[]]]] Hm; simpl in Hm;
+          repeat (destruct Hm as [<-|Hm]; [reflexivity|]); destruct Hm|].
+  split; [vm_compute; reflexivity|]. split; [vm_compute; reflexivity|].
+  vm_compute. reflexivity.
+Qed.
+
 Print Assumptions C09_key.
 Print Assumptions C09_setup_binds_key.
 Print Assumptions C09_attr_write_reaches_topic.
@@ -517,3 +647,10 @@ Print Assumptions C09_truthiness_unobservable.
 Print Assumptions C09_read_never_returns_descriptor.
 Print Assumptions C09_write_falsy_owner.
 Print Assumptions C09_set_truth_changes_nothing_else.
+Print Assumptions C09_class_members.
+Print Assumptions C09_redefinition_shadows.
+Print Assumptions C09_plain_member_shadows.
+Print Assumptions C09_setup_hierarchy.
+Print Assumptions C09_setup_hierarchy_read.
+Print Assumptions C09_setup_hierarchy_untouched.
+Print Assumptions C09_hierarchy_setup_succeeds.
